@@ -249,6 +249,18 @@ var fieldRoleTable = []fieldRole{
 		}
 		return false
 	}},
+	{"pkg/app", "fsFile", "bigFiles", func(w *core.World, f *types.Var, uses []fieldUse) bool {
+		// the free list of big-file readers: the only slice of *bigFileReader
+		return strings.HasSuffix(f.Type().String(), "[]*"+w.ModPfx+"/pkg/app.bigFileReader")
+	}},
+	{"pkg/app", "fsFile", "bigFilesLock", func(w *core.World, f *types.Var, uses []fieldUse) bool {
+		// the only mutex of fsFile
+		return f.Type().String() == "sync.Mutex"
+	}},
+	{"pkg/network/netpoll", "transporter", "el", func(w *core.World, f *types.Var, uses []fieldUse) bool {
+		// the netpoll event loop handle: the only field of an EventLoop type
+		return strings.HasSuffix(f.Type().String(), "netpoll.EventLoop")
+	}},
 	{"pkg/protocol/http1", "HostClient", "connsCount", func(w *core.World, f *types.Var, uses []fieldUse) bool {
 		inc, dec := false, false
 		for _, u := range uses {
